@@ -48,6 +48,8 @@ def call(eng, node, st):
     if name is not None and name in st.env and isinstance(st.env[name], FunV):
         args = [eng.ev(a, st) for a in node.args]
         return eng.apply_fun(st.env[name], args, st)
+    if name in ("all", "any") and len(node.args) == 1 and isinstance(node.args[0], (ast.GeneratorExp, ast.ListComp)):
+        return quant_genexp(eng, node.args[0], st, name == "all")
     if name in SIMPLE:
         args = [eng.ev(a, st) for a in node.args]
         for kw in node.keywords:
@@ -85,6 +87,59 @@ def call_starred(eng, node, st):
     if isinstance(node.func, ast.Attribute):
         return method_call(eng, node, st, preargs=args)
     raise Unsupported("starred call of a plain function")
+
+
+def quant_genexp(eng, gen, st, universal):
+    """all(...) / any(...) over a generator expression = nested bounded quantifiers; `if`
+    clauses are guards; a for-clause over a tuple of known arity is unrolled.  Bounds obligations
+    inside are emitted for arbitrary indices."""
+    from .engine import State
+
+    def rec(k, s2):
+        if k == len(gen.generators):
+            return eng.truth(eng.ev(gen.elt, s2), s2)
+        g = gen.generators[k]
+        src = eng.ev(g.iter, s2)
+
+        def after_bind(s3):
+            guards = []
+            for cnd in g.ifs:
+                t = eng.truth(eng.ev(cnd, s3), s3)
+                guards.append(t)
+                s3.pc.append(t)
+            inner = rec(k + 1, s3)
+            if not guards:
+                return inner
+            return z3.Implies(z3.And(guards), inner) if universal else z3.And(*guards, inner)
+
+        if isinstance(src, TupV):
+            parts = []
+            for item in src.items:
+                s3 = State(dict(s2.env), list(s2.pc))
+                eng.assign(g.target, item, s3)
+                parts.append(after_bind(s3))
+            if not parts:
+                return z3.BoolVal(universal)
+            return z3.And(parts) if universal else z3.Or(parts)
+        if isinstance(src, BagV):
+            raise Unsupported("quantifier over an image collection")
+        s3 = State(dict(s2.env), list(s2.pc))
+        if isinstance(src, SetV):
+            xs = [fresh("qx") for _ in range(src.arity)]
+            val = IntV(xs[0]) if src.arity == 1 else TupV([IntV(x) for x in xs])
+            dom = B(src.contains(val))
+        else:
+            seq = eng.as_seq(src, s2)
+            i = fresh("qi")
+            xs = [i]
+            dom = z3.And(i >= 0, i < seq.n)
+            val = seq.at(i)
+        s3.pc.append(dom)
+        eng.assign(g.target, val, s3)
+        inner = after_bind(s3)
+        return z3.ForAll(xs, z3.Implies(dom, inner)) if universal else z3.Exists(xs, z3.And(dom, inner))
+
+    return BoolV(rec(0, State(dict(st.env), list(st.pc))))
 
 
 # --------------------------------------------------------------- constructors
@@ -134,6 +189,19 @@ def method_call(eng, node, st, preargs=None):
             base.extend(eng.as_seq(src, st))
             return NONE
         raise Unsupported(f"list.{mname}")
+    if isinstance(base, SetV) and mname in ("add", "update"):
+        if not isinstance(f.value, ast.Name):
+            raise Unsupported("mutation of a set that is not a local variable")
+        old = base
+        if mname == "add":
+            new = args[0]
+            st.env[f.value.id] = SetV(lambda v, old=old, new=new: z3.Or(B(old.contains(v)), veq(v, new)), old.arity if old.arity else 1)
+            if isinstance(new, TupV):
+                st.env[f.value.id].arity = len(new)
+        else:
+            other = eng.to_set(args[0], st)
+            st.env[f.value.id] = SetV(lambda v, old=old, other=other: z3.Or(B(old.contains(v)), B(other.contains(v))), other.arity)
+        return NONE
     if isinstance(base, SetV) and mname in ("intersection", "union", "difference"):
         other = eng.to_set(args[0], st)
         if mname == "intersection":
@@ -391,7 +459,22 @@ def b_sorted(eng, st, a, kw):
         raise Unsupported("sorted with key/reverse")
     src = a[0]
     if isinstance(src, SetV):
-        raise Unsupported("sorted(set): needs the cardinality of the set")
+        # TRUSTED axiom "sorted of a finite set of ints": a strictly increasing list with the same
+        # members (idx_of is the ghost position of a member).  Finiteness of the set is the caller's
+        # business (all sets built by the verified functions are subsets of a bounded range).
+        if src.arity != 1:
+            raise Unsupported("sorted(set of tuples)")
+        n = fresh("sorted_n")
+        out = fresh_fun("sorted", z3.IntSort(), z3.IntSort())
+        pos = fresh_fun("idx_of", z3.IntSort(), z3.IntSort())
+        i, j, v = fresh("so"), fresh("sp"), fresh("sv")
+        st.assume(n >= 0)
+        st.assume(z3.ForAll([i], z3.Implies(z3.And(i >= 0, i < n), B(src.contains(IntV(out(i))))), patterns=[out(i)]))
+        st.assume(z3.ForAll([v], z3.Implies(B(src.contains(IntV(v))), z3.And(pos(v) >= 0, pos(v) < n, out(pos(v)) == v)), patterns=[pos(v)]))
+        st.assume(z3.ForAll([i, j], z3.Implies(z3.And(i >= 0, i < j, j < n), out(i) < out(j)), patterns=[z3.MultiPattern(out(i), out(j))]))
+        lv = ListV(n, lambda k: IntV(out(k)))
+        lv.sorted_of = (src, pos)
+        return lv
     seq = eng.as_seq(src, st)
     n = seq.n
     out = fresh_fun("sorted", z3.IntSort(), z3.IntSort())
